@@ -218,8 +218,15 @@ fn make_crypto_reader<'a>(
 ) -> ZipResult<Result<CryptoReader<'a>, InvalidPassword>> {
     #[allow(deprecated)]
     {
-        if let CompressionMethod::Unsupported(_) = compression_method {
-            return unsupported_zip_error("Compression method not supported");
+        match compression_method {
+            CompressionMethod::Unsupported(_) => {
+                return unsupported_zip_error("Compression method not supported")
+            }
+            #[cfg(feature = "aes-crypto")]
+            CompressionMethod::Aes => {
+                return unsupported_zip_error("Compression method not supported")
+            }
+            _ => {}
         }
     }
 
